@@ -27,7 +27,7 @@ META = {
 def queries(tier, kf):
     mb = 72 if tier == "quick" else 96
     d = {"MAXB": mb}
-    uw = mb + 2
+    uw = mb + 10
     qs = []
     for sz in range(0, mb + 1):
         dd = {"MAXB": mb, "SZ": sz}
